@@ -142,6 +142,12 @@ func (s *Server[StateT]) handleCommand(opCode proto.OpCode, ctx *Context[StateT]
 	}
 }
 
+// rootedPath makes a path received from a client absolute and clean: no ".." element survives,
+// so every name handed to the filesystem lies below its root.
+func rootedPath(p string) string {
+	return filepath.Clean(string(filepath.Separator) + p)
+}
+
 func (s *Server[StateT]) handleOpenDir(ctx *Context[StateT]) error {
 	// here we should check that we can read requested dir and set state if it's true
 	dirPath, err := ctx.rd.ReadOpenDir()
@@ -149,7 +155,7 @@ func (s *Server[StateT]) handleOpenDir(ctx *Context[StateT]) error {
 		return fmt.Errorf("read dir failed: %w", err)
 	}
 
-	return ctx.wr.SendOpenDirResult(s.Handler.HandleOpenDir(ctx, dirPath))
+	return ctx.wr.SendOpenDirResult(s.Handler.HandleOpenDir(ctx, rootedPath(dirPath)))
 }
 
 func (s *Server[StateT]) handleReadDirEntry(ctx *Context[StateT]) error {
@@ -170,7 +176,7 @@ func (s *Server[StateT]) handleStatFile(ctx *Context[StateT]) error {
 		return fmt.Errorf("read stat path failed: %w", err)
 	}
 
-	fi, err := s.Handler.HandleStatFile(ctx, filePath)
+	fi, err := s.Handler.HandleStatFile(ctx, rootedPath(filePath))
 	if err != nil {
 		return ctx.wr.SendStatFileError()
 	}
@@ -187,7 +193,7 @@ func (s *Server[StateT]) handleOpenFile(ctx *Context[StateT]) error {
 		return fmt.Errorf("read file to open path failed: %w", err)
 	}
 
-	filePath = filepath.Clean(filePath)
+	filePath = rootedPath(filePath)
 
 	if _, name := filepath.Split(filePath); name == "CLOSEFILE" {
 		s.Handler.HandleCloseFile(ctx)
@@ -268,7 +274,7 @@ func (s *Server[StateT]) handleCreateFile(ctx *Context[StateT]) error {
 		return fmt.Errorf("read file to create path failed: %w", err)
 	}
 
-	if err = s.Handler.HandleCreateFile(ctx, path); err != nil {
+	if err = s.Handler.HandleCreateFile(ctx, rootedPath(path)); err != nil {
 		return ctx.wr.SendCreateFileError()
 	}
 
@@ -300,7 +306,7 @@ func (s *Server[StateT]) handleDeleteFile(ctx *Context[StateT]) error {
 		return fmt.Errorf("read file to delete path failed: %w", err)
 	}
 
-	if err = s.Handler.HandleDeleteFile(ctx, path); err != nil {
+	if err = s.Handler.HandleDeleteFile(ctx, rootedPath(path)); err != nil {
 		return ctx.wr.SendDeleteFileError()
 	}
 
@@ -313,7 +319,7 @@ func (s *Server[StateT]) handleMkdir(ctx *Context[StateT]) error {
 		return fmt.Errorf("read directory to create path failed: %w", err)
 	}
 
-	if err = s.Handler.HandleMkdir(ctx, path); err != nil {
+	if err = s.Handler.HandleMkdir(ctx, rootedPath(path)); err != nil {
 		return ctx.wr.SendMkdirError()
 	}
 
@@ -326,7 +332,7 @@ func (s *Server[StateT]) handleRmdir(ctx *Context[StateT]) error {
 		return fmt.Errorf("read directory to remove path failed: %w", err)
 	}
 
-	if err = s.Handler.HandleRmdir(ctx, path); err != nil {
+	if err = s.Handler.HandleRmdir(ctx, rootedPath(path)); err != nil {
 		return ctx.wr.SendRmdirError()
 	}
 
@@ -339,7 +345,7 @@ func (s *Server[StateT]) handleGetDirSize(ctx *Context[StateT]) error {
 		return fmt.Errorf("read directory to calculate size path failed: %w", err)
 	}
 
-	size, err := s.Handler.HandleGetDirSize(ctx, path)
+	size, err := s.Handler.HandleGetDirSize(ctx, rootedPath(path))
 	if err != nil {
 		return ctx.wr.SendGetDirectorySizeError()
 	}
